@@ -20,7 +20,7 @@ LEVEL_RULE = (
 EXHAUSTIVE_SUBDOMAINS = ["atmos on the 10 m altitude grid over [-500, 20000] m"]
 ASSUMPTIONS = ["'tabulated ISA' = analytic hydrostatic ISA with g0, R, lapse rate -6.5 K/km, isothermal above 11 km",
                "round-trip tolerance 1e-8 relative (double precision through two pow() calls)"]
-REQUIRED = ["arrays_of_more_than_4M_rows", "array_with_a_missing_row", "atmos_grid", "tropopause", "roundtrip", "monotone", "sea_level", "ordering", "distance_uniform",
+REQUIRED = ["arrays_of_more_than_4M_rows", "same_shape_tables_converted_by_4_threads", "array_with_a_missing_row", "atmos_grid", "tropopause", "roundtrip", "monotone", "sea_level", "ordering", "distance_uniform",
             "distance_antipodal", "distance_identical", "distance_cardinal", "distance_with_H", "recall_after_in_place_edit", "narrow_integer_dtypes", "non_contiguous_layouts", "bearing", "array_equals_scalar", "types"]
 
 
@@ -415,13 +415,65 @@ def m_big(ctx, case):
     ctx.nontrivial(("big", fname, n))
 
 
-MONITORS = {"atmos": m_atmos, "tropopause": m_tropopause, "speed": m_speed, "geo": m_geo, "types": m_types, "big": m_big}
+def m_threads(ctx, case):
+    """four threads converting tables of the SAME shape and dtype at the same time (a work array kept at module level is shared
+    by all of them): every thread gets the answer it gets alone"""
+    import sys
+    import threading
+    import numpy as np
+    from pyModeS.extra import aero
+    g = np.random.default_rng(case["gseed"])
+    n = case["n"]
+    jobs = []
+    for t in range(4):
+        H = g.uniform(-500.0, 20000.0, n)
+        V = g.uniform(0.5, 450.0, n)
+        alone = {}
+        for f in ("tas2cas", "cas2tas", "mach2cas", "cas2mach", "tas2eas", "eas2tas"):
+            x = V / 400.0 if f.startswith("mach2") else V
+            r = call(getattr(aero, f), x.copy(), H.copy())
+            if r[0] == "ok":
+                alone[f] = (x, np.array(r[1], copy=True))
+        jobs.append((H, alone))
+    bad = []
+
+    def work(t):
+        H, alone = jobs[t]
+        for rnd in range(case["rounds"]):
+            for f, (x, want) in alone.items():
+                if bad:
+                    return
+                got = getattr(aero, f)(x.copy(), H.copy())
+                if not np.allclose(got, want, rtol=1e-12, atol=0, equal_nan=True):
+                    j = int(np.argmax(np.abs(np.asarray(got) - want)))
+                    bad.append((f, t, rnd, float(x[j]), float(H[j]), float(np.asarray(got)[j]), float(want[j])))
+                    return
+    old = sys.getswitchinterval()
+    sys.setswitchinterval(1e-6)
+    try:
+        ths = [threading.Thread(target=work, args=(t,), daemon=True) for t in range(4)]
+        for th in ths:
+            th.start()
+        for th in ths:
+            th.join(timeout=300)
+    finally:
+        sys.setswitchinterval(old)
+    ctx.ev(4 * case["rounds"] * 6)
+    for f, t, rnd, xv, hv, gv, wv in bad[:2]:
+        ctx.violation("array-result-differs-under-concurrent-calls", fn=f, thread=t, round=rnd, v=xv, H=hv, concurrent=gv, alone=wv, rows=n)
+    ctx.hit("same_shape_tables_converted_by_4_threads")
+    ctx.nontrivial(("thr", case["gseed"]))
+
+
+MONITORS = {"threads": m_threads, "atmos": m_atmos, "tropopause": m_tropopause, "speed": m_speed, "geo": m_geo, "types": m_types, "big": m_big}
 
 
 def cases(ctx):
     rng = ctx.rng
     quick = ctx.tier == "quick"
     i = 0
+    if ctx.mine(3):
+        yield "threads", {"n": 3000, "rounds": 60 if quick else 600, "gseed": ctx.seed * 17 + 5}
     # a few very long arrays (one function per case, spread over the shards)
     for f_ in range(10):
         for n_ in ((1 << 22) + 12345, (1 << 20) + 7, 65537):
